@@ -1,4 +1,4 @@
-CONSTANT Cfg <- Cfg_seq_cancel_unfixed
+CONSTANT CfgSet <- S_seq_cancel_unfixed
 INIT MCInit
 NEXT Next
 CHECK_DEADLOCK FALSE
